@@ -145,8 +145,15 @@ static void note_band(long seq, int pos, Case& c, bool threw) {
 static void do_direct(long seq, int pos, Case& c) {
   int n = c.n;
   const Mat& E = c.hasE ? c.E : c.Eh;
-  gsl_matrix_complex* A = gsl_matrix_complex_alloc(n, n);
-  gsl_matrix_complex* R = gsl_matrix_complex_alloc(n, n);
+  // every other call passes argument and result as VIEWS into larger matrices (row stride tda != n): the same matrices
+  bool asview = ((seq + pos) % 2) != 0;
+  gsl_matrix_complex* bigA = gsl_matrix_complex_alloc(asview ? n + 2 : n, asview ? n + 3 : n);
+  gsl_matrix_complex* bigR = gsl_matrix_complex_alloc(asview ? n + 3 : n, asview ? n + 2 : n);
+  gsl_matrix_complex_set_all(bigA, gsl_complex_rect(1e3, -1e3));
+  gsl_matrix_complex_view vA = gsl_matrix_complex_submatrix(bigA, asview ? 1 : 0, asview ? 2 : 0, n, n);
+  gsl_matrix_complex_view vR = gsl_matrix_complex_submatrix(bigR, asview ? 2 : 0, asview ? 1 : 0, n, n);
+  gsl_matrix_complex* A = &vA.matrix;
+  gsl_matrix_complex* R = &vR.matrix;
   for (int i = 0; i < n; i++) for (int j = 0; j < n; j++) gsl_matrix_complex_set(A, i, j, gsl_complex_rect(c.A(i, j).real(), c.A(i, j).imag()));
   gsl_matrix_complex_set_all(R, gsl_complex_rect(NAN, NAN));
   ev_m = ev_s = -1; ev_n = 0; gsl_errs = 0;
@@ -170,7 +177,7 @@ static void do_direct(long seq, int pos, Case& c) {
     fail(seq, pos, c, "direct", std::string("throw/") + (ev_n ? band_class() : "nobranch"), INFINITY, tol, std::string("exception: ") + e.what());
   }
   note_band(seq, pos, c, threw);
-  gsl_matrix_complex_free(A); gsl_matrix_complex_free(R);
+  gsl_matrix_complex_free(bigA); gsl_matrix_complex_free(bigR);
 }
 
 // B.UTransform(V, i*s) = exp(-isV) B exp(isV),  i s V = A  (V = H = -i AP, s = 2^sa pi/4)
